@@ -19,6 +19,8 @@ From QV.Model Require Import IndexUtil Multinomial.
 Import ListNotations.
 Local Open Scope Z_scope.
 
+Definition np_mask_select {A} (x : list A) (mask : list bool) : list A := select mask x.
+
 Inductive pyres (A : Type) := PRet (a : A) | PRaise (exc : string).
 Arguments PRet {A} a. Arguments PRaise {A} exc.
 
@@ -90,11 +92,40 @@ Definition np_sum_axis (a : ndarray) (axes : list Z) : ndarray :=
   let keep := map (fun k => negb (existsb (Z.eqb (Z.of_nat k)) axes)) (seq 0 (List.length sh)) in
   (marg_raw F (map Z.to_nat sh) (fst a) keep, select keep sh).
 
+(* a.reshape(shape)[np.ix_ of the masks] with one boolean mask per axis: the sub-grid of the entries whose every digit is selected, in
+   row-major order (order preserving); its shape is the number of selected positions per axis *)
+Fixpoint all_sel (masks : list (list bool)) (ds : list nat) : bool :=
+  match masks, ds with
+  | [], [] => true
+  | m :: ms, d :: t => nth d m false && all_sel ms t
+  | _, _ => false
+  end.
+Definition nd_ix_select (a : ndarray) (masks : list (list bool)) : ndarray :=
+  let sh := map Z.to_nat (snd a) in
+  (map (fun k => nth k (fst a) 0) (filter (fun k => all_sel masks (digitsn sh k)) (seq 0 (prodn sh))),
+   map (fun m => Z.of_nat (List.length (filter (fun b : bool => b) m))) masks).
+(* np.sum(a) of an n-d array: all entries;  np.array(t)[mask] for a 1-d boolean mask: the selected entries in order *)
+Definition np_sum_all (a : ndarray) : F := lsum F (fst a).
+
 (* a MultinomialDistribution object: its four private attributes (the read-only properties ps / shape / eps_zero /
    is_zero_dist return them unchanged — checked by the translator) *)
 Record md := mk_md { md_ps : list F; md_shape : list Z; md_eps_zero : F; md_is_zero_dist : bool }.
 End Num.
 
-(* a StateEnsemble: its states (of an abstract type) and its distribution *)
-Record ensemble (F : OF) (St : Type) := mk_ens { ens_states : list St; ens_prob_dist : md F }.
-Arguments ens_states {F St}. Arguments ens_prob_dist {F St}. Arguments mk_ens {F St}.
+(* a StateEnsemble: its states (of an abstract type), its distribution and its eps_zero *)
+Record ensemble (F : OF) (St : Type) := mk_ens { ens_states : list St; ens_prob_dist : md F; ens_eps_zero : F }.
+Arguments ens_states {F St}. Arguments ens_prob_dist {F St}. Arguments ens_eps_zero {F St}. Arguments mk_ens {F St}.
+(* what _compose_qoperations_MProcess_StateEnsemble reads of an MProcess: outcome shape, eps_zero, mode_sampling *)
+Record mproc (F : OF) := mk_mp { mp_shape : list Z; mp_eps_zero : F; mp_mode_sampling : bool }.
+
+(* error codes of the hand-written model (Model/Multinomial.v) -> Python exception classes (the same table as ERRMAP in
+   harness/props/c16.py), and the embedding of its results *)
+Definition exc_of_code (c : nat) : string :=
+  match c with
+  | 5%nat => "KeyError" | 9%nat => "IndexError" | 10%nat => "TypeError" | _ => "ValueError"
+  end.
+Definition to_py {A B} (f : A -> B) (r : mres A) : pyres B :=
+  match r with MOk a => PRet (f a) | MErr c => PRaise (exc_of_code c) end.
+Definition md_of_dist (F : OF) (e : F) (d : dist F) : md F := mk_md F (d_ps F d) (map Z.of_nat (d_shape F d)) e (d_zero F d).
+(* marker result of a branch the translation does not model (sampling: random) *)
+Definition not_modelled : string := "<not modelled: mode_sampling>".
